@@ -81,9 +81,36 @@ func counterReadCall(entry *ssa.Function, rs nonceSite) *ssa.Call {
 	return nil
 }
 
+// counterReadNotFailSoft: in the function that reads the counter, a failed read must not be reported as "no counter yet": every success
+// return is cut by the success edge of the RetrieveValue call.
+func counterReadNotFailSoft(c *Ctx, rule string, rd nonceSite, who string) {
+	call := rd.s.In.(ssa.CallInstruction)
+	fn := rd.s.In.Parent()
+	e := rd.s.Env
+	pred := func(f Fact) bool { return !f.Lin && f.Pos && f.Call == call && strings.HasPrefix(f.Atom, "ok:") }
+	okAll, n := true, 0
+	for _, r := range returnsOf(fn) {
+		if !isSuccessReturn(r) {
+			continue
+		}
+		n++
+		if _, ok := e.CutAt(r, pred, nil); !ok {
+			okAll = false
+		}
+	}
+	construct := who + ": a failed counter read is an error, not counter 0"
+	if okAll && n > 0 {
+		c.OK(rule, FuncName(fn), construct, c.P.InstrPos(call), "every success return of "+fn.Name()+" is cut by the read having succeeded")
+	} else {
+		c.FailX(Oblig{Rule: rule, Func: FuncName(fn), Construct: construct, Pos: c.P.InstrPos(call), Kind: "violation",
+			Detail:   "when the storage read of the counter fails the reader reports success (counter 0): the next create re-issues nonce 1 and overwrites an existing NFT, a hand-over ships counter 0",
+			Expected: "if err != nil { return 0, err } before interpreting the bytes"})
+	}
+}
+
 func c07r1(c *Ctx) {
 	const rule = "C07-R1"
-	c.Rule(rule, "create: nonce = stored counter + 1 is the metadata nonce, the persisted counter, the return datum and the log topic", 6)
+	c.Rule(rule, "create: nonce = stored counter + 1 is the metadata nonce, the persisted counter, the return datum and the log topic", 7)
 	r, ok := c.P.RegByName()["ESDTNFTCreate"]
 	if !ok || r.Entry == nil {
 		c.Anchor(rule, "registration of ESDTNFTCreate")
@@ -106,6 +133,7 @@ func c07r1(c *Ctx) {
 	}
 	rd, wr := reads[0], writes[0]
 	pos := c.P.InstrPos(wr.s.In)
+	counterReadNotFailSoft(c, rule, rd, "create")
 	// same account, same token, token = Arguments[0]
 	if rd.acct == x.snd && wr.acct == x.snd && rd.token == wr.token && rd.token == x.arg(0) {
 		c.OK(rule, FuncName(r.Entry), "counter read and written under one key of the sender account", pos, "ELRONDnonce‖"+rd.token+" on "+rd.acct)
@@ -215,7 +243,7 @@ func sliceLiteralElem(e *Env, v ssa.Value) string {
 
 func c07r2(c *Ctx) {
 	const rule = "C07-R2"
-	c.Rule(rule, "hand-over: the counter moves with the role (old holder zeroed and stripped, value shipped / written to the new holder)", 6)
+	c.Rule(rule, "hand-over: the counter moves with the role (old holder zeroed and stripped, value shipped / written to the new holder)", 7)
 	c.Rule("C07-R3", "hand-over, next owner: counter from the message, role added", 2)
 	r, ok := c.P.RegByName()["ESDTNFTCreateRoleTransfer"]
 	if !ok || r.Entry == nil {
@@ -281,6 +309,7 @@ func c07r2(c *Ctx) {
 		if len(g.reads) == 1 {
 			// ---- current owner
 			rd := g.reads[0]
+			counterReadNotFailSoft(c, rule, rd, "hand-over")
 			rc := topCall(rd)
 			readRes := ge.Term(rc.(ssa.Value)) + "#0"
 			pos := c.P.InstrPos(rc)
